@@ -2750,12 +2750,6 @@ impl ModuleGraph {
           break;
         }
         redirected_specifier = specifier;
-        if seen.len() >= MAX_REDIRECTS {
-          log::warn!(
-            "An excessive number of redirections detected.\n  Original specifier: {specifier}"
-          );
-          break;
-        }
       }
     }
     redirected_specifier
